@@ -19,6 +19,7 @@ import TantivyModel.Proofs.VInt32Source
 import TantivyModel.Proofs.BlockCursorSeek
 import TantivyModel.Proofs.RemapPermuted
 import TantivyModel.Proofs.SegmentEndToEnd
+import TantivyModel.Proofs.Expull
 /-!
 # C07 — The inverted index records exactly the terms, documents, frequencies, positions
 
@@ -617,6 +618,39 @@ theorem C07_segment_end_to_end (o : RecOpt) (c : Corpus) (G : Recorder.GoodCorpu
   · rw [hsl, hback, hterm]
   · rw [hsl, hidf, hlazy, hterm]
 
+/-! ### the recorders' byte log: `ExpUnrolledLinkedList` in the shared arena -/
+
+/-- **The byte log round-trips.**  Starting from an empty `ExpUnrolledLinkedList`, after any sequence
+of `extend_from_slice` calls — blocks of 8, 16, …, 32768, 32768, … bytes allocated from the arena
+and linked through the 4-byte next pointer written behind each full block — `read_to_end` returns
+exactly the concatenation of everything written (the arena staying within 32-bit addresses).
+More generally a list holding `bs` holds `bs ++ buf` after `extend_from_slice(buf)`. -/
+theorem C07_expull_roundtrip (a : Expull.Arena) (e : Expull.Eull) (bs buf : List Nat)
+    (h : Expull.Rep a e bs) (hfit : (Expull.extendFromSlice e a buf).2.len ≤ 2 ^ 32) :
+    Expull.Rep a Expull.Eull.default [] ∧
+    Expull.Rep (Expull.extendFromSlice e a buf).2 (Expull.extendFromSlice e a buf).1 (bs ++ buf) ∧
+    Expull.readToEnd (Expull.extendFromSlice e a buf).1 (Expull.extendFromSlice e a buf).2 = bs ++ buf ∧
+    Expull.readToEnd e a = bs := by
+  have h2 := Expull.extendFromSlice_rep e a buf bs h hfit
+  exact ⟨Or.inl ⟨rfl, rfl⟩, h2, Expull.readToEnd_rep _ _ _ h2, Expull.readToEnd_rep _ _ _ h⟩
+
+/-- **Lists sharing the arena do not disturb each other.**  A list's content depends only on the
+bytes of its own blocks (frame); and appending to another list touches, among the bytes allocated
+so far, only the free part and the next-pointer slot of *that* list's current block — so every
+list that shares no address with it still reads back the same bytes afterwards. -/
+theorem C07_expull_separation (a : Expull.Arena) (e1 : Expull.Eull) (full : List Expull.Block) (la : Nat)
+    (ld : List Nat) (g : Expull.Good a e1 full la ld) (e2 : Expull.Eull) (buf : List Nat)
+    (hdisj : ∀ x, Expull.Owned e1 full la x → ¬ Expull.Free e2 x) :
+    Expull.readToEnd e1 (Expull.extendFromSlice e2 a buf).2 = Expull.readToEnd e1 a ∧
+    (∀ a' : Expull.Arena, (∀ x, Expull.Owned e1 full la x → a'.mem x = a.mem x) → a.len ≤ a'.len →
+      Expull.readToEnd e1 a' = Expull.readToEnd e1 a) ∧
+    (∀ x, x < a.len → ¬ Expull.Free e2 x → (Expull.extendFromSlice e2 a buf).2.mem x = a.mem x) := by
+  refine ⟨?_, fun a' hm hl => ?_, fun x hx hf => Expull.extendLoop_footprint _ e2 a buf x hx hf⟩
+  · rw [Expull.readToEnd_good _ _ _ _ _ (Expull.other_list_kept a e1 full la ld g e2 buf hdisj),
+      Expull.readToEnd_good _ _ _ _ _ g]
+  · rw [Expull.readToEnd_good _ _ _ _ _ (Expull.good_congr a a' e1 full la ld hm hl g),
+      Expull.readToEnd_good _ _ _ _ _ g]
+
 /-! ### field norms -/
 
 theorem fieldnorm_roundtrip (i : Nat) (hi : i < 256) :
@@ -723,6 +757,11 @@ example : (FieldSerializer.segmentFiles .freqs [[[⟨[97], 0, 1⟩, ⟨[98], 1, 
 example : ((BlockPostings.open cfg .freqs .freqs 3 [129, 132, 132, 130, 129, 135]).seek cfg 2).1.freqs.getD
     ((BlockPostings.open cfg .freqs .freqs 3 [129, 132, 132, 130, 129, 135]).seek cfg 2).2 0 = 1 ∧
     encodeTerm cfg .freqs [1, 5, 9] [2, 1, 7] = [129, 132, 132, 130, 129, 135] := by decide +kernel
+example : (Expull.runWrites [Expull.Eull.default, Expull.Eull.default] Expull.Arena.empty
+      [(0, [1, 2, 3]), (1, [9]), (0, [4, 5, 6, 7, 8, 9, 10])]).1.map
+    (fun e => Expull.readToEnd e (Expull.runWrites [Expull.Eull.default, Expull.Eull.default] Expull.Arena.empty
+      [(0, [1, 2, 3]), (1, [9]), (0, [4, 5, 6, 7, 8, 9, 10])]).2) = [[1, 2, 3, 4, 5, 6, 7, 8, 9, 10], [9]] := by
+  decide +kernel
 example : Recorder.sortPostings ([⟨0, 1, [0]⟩, ⟨1, 2, [0, 2]⟩, ⟨2, 1, [4]⟩].map (Recorder.remapPosting (fun d => 2 - d))) =
     [⟨0, 1, [4]⟩, ⟨1, 2, [0, 2]⟩, ⟨2, 1, [0]⟩] := by decide
 example : BlockPostings.seekAll cfg (BlockPostings.open cfg .basic .basic 3 [129, 132, 132]) [0, 2, 9, 10] =
